@@ -92,9 +92,8 @@ mod verif_kani_key_layout {
         let with_mode: bool = kani::any();
         let pm = any_mode();
         let p = if with_mode {
-            match pm { NodeMode::Item => Prefix::item(pi), NodeMode::Tree => Prefix::tree(pi), NodeMode::Updated => Prefix::updated(pi),
-                       NodeMode::Metadata => Prefix { index: pi, mode: Some(NodeMode::Metadata) } }
-        } else { Prefix::all(pi) };
+            Prefix { index: pi, mode: Some(pm) }
+        } else { Prefix { index: pi, mode: None } };
         let (ki, kd): (u16, u32) = (kani::any(), kani::any());
         let km = any_mode();
         let kb = enc(&Key::new(ki, NodeId { mode: km, item: kd }));
